@@ -9,7 +9,7 @@
 set -u
 ID="$1"; MODE="$2"; TGT="$3"
 HERE="$(cd "$(dirname "$0")/.." && pwd)"
-H="$HERE/harness"
+H="${VERIF_HARNESS_DIR:-$HERE/harness}"
 SEED="${VERIF_SEED:-1}"
 "$TGT/release/hfcheck" "$ID" "$MODE"
 rc=$?
@@ -19,7 +19,7 @@ AUX="$TGT/aux-$ID"; rm -rf "$AUX"; mkdir -p "$AUX"
 fail=$rc
 note() { echo "$1" >> "$AUX/summary.txt"; }
 
-# ---- plain flavour
+# ---- plain flavour (same target dir as the deciding flavour: already made fresh by ./check)
 if (cd "$H" && cargo build --offline --profile plain --bin hfcheck >"$AUX/build-plain.log" 2>&1); then
   "$TGT/plain/hfcheck" "$ID" thorough --flavour plain --budget-div 4 --evidence-name "_aux-plain-$ID.json" >"$AUX/plain.out" 2>&1
   r=$?
@@ -31,6 +31,7 @@ fi
 
 case "$ID" in C10|C11|C13|C19)
   # ---- ASan
+  ensure_fresh "$TGT-asan"
   if (cd "$H" && RUSTFLAGS="-Zsanitizer=address -Cforce-frame-pointers=yes" CARGO_TARGET_DIR="$TGT-asan" cargo +nightly build --offline --release --target x86_64-unknown-linux-gnu --bin hfcheck >"$AUX/build-asan.log" 2>&1); then
     ASAN_OPTIONS="halt_on_error=1:abort_on_error=0:detect_leaks=1:log_path=$AUX/asan-report" \
       "$TGT-asan/x86_64-unknown-linux-gnu/release/hfcheck" "$ID" thorough --flavour asan --budget-div 8 --evidence-name "_aux-asan-$ID.json" >"$AUX/asan.out" 2>&1
@@ -50,6 +51,7 @@ esac
 
 if [ "$ID" = "C13" ]; then
   # ---- Miri: 16 shard processes, a few hundred strings x 11 entry points each
+  ensure_fresh "$TGT-miri"
   if (cd "$H" && MIRIFLAGS="-Zmiri-disable-isolation" CARGO_TARGET_DIR="$TGT-miri" cargo +nightly miri run --offline --bin hfcheck -- C13 quick --budget-div 100000000 --one-shard 0 --skip-selftest --no-git --evidence-name _aux-miri-warmup.json --flavour miri >"$AUX/build-miri.log" 2>&1); then
     pids=""
     for k in $(seq 0 15); do
